@@ -4,9 +4,9 @@
    RDKit's own behaviour (element symbols, implicit-hydrogen count, neighbour order of a chiral centre, choice of
    double-bond reference atoms) is universally quantified. *)
 From Coq Require Import ZArith List String Bool.
-From Model Require Import PyBase PeriodicTable Stereo Rdkit.
+From Model Require Import PyBase Graph PeriodicTable Stereo Rdkit RdkitRegistry.
 From Gen Require Import Elements RdkitTables StereoTables.
-From Proofs Require Import StereoProofs RdkitProofs RdkitExt RdkitExt2 RdkitExt3.
+From Proofs Require Import StereoProofs RdkitProofs RdkitExt RdkitExt2 RdkitExt3 RdkitExt4.
 Import ListNotations.
 Open Scope string_scope.
 Open Scope Z_scope.
@@ -589,3 +589,54 @@ Theorem C20_plain_order_iff_no_label : forall atoms bond_atoms,
   uses_plain_order atoms bond_atoms = true <-> atoms = [] /\ bond_atoms = [].
 Proof. exact plain_order_iff_no_label. Qed.
 Print Assumptions C20_plain_order_iff_no_label.
+
+(* ---- the stereo registry is a function of the molecule (Model.RdkitRegistry), not an input ---- *)
+(* a permutation of distinct atoms IS one of the 24 arrangements *)
+Theorem C20_arrangement_of_permutation : forall a b c d l,
+  NoDup [a; b; c; d] -> Permutation.Permutation [a; b; c; d] l -> exists q, In q perms4 /\ l = sel [a; b; c; d] q.
+Proof. exact arrangement4_of_permutation. Qed.
+Print Assumptions C20_arrangement_of_permutation.
+
+(* stereogenic_tetrahedrons of ANY molecule that has the renamed centre with the same element / charge / radical flag, the
+   renamed neighbours with the same elements and the same bond orders -- the adjacency in any order -- holds for that centre a
+   permutation of the renamed old entry, and no entry where the old molecule has none *)
+Theorem C20_registry_equivariant : forall g g' rho n,
+  same_kind g g' rho n -> (forall x, In x (nbr_ids g n) -> same_kind g g' rho x) -> same_nbrs g g' rho n ->
+  match stereogenic_entry g n with
+  | Some env => exists env', stereogenic_entry g' (rho n) = Some env' /\ Permutation.Permutation (map rho env) env'
+  | None => stereogenic_entry g' (rho n) = None
+  end.
+Proof. exact registry_equivariant. Qed.
+Print Assumptions C20_registry_equivariant.
+
+Theorem C20_registry_lookup : forall g n, In n (ids g) -> zget (stereogenic_tetrahedrons_of g) n = stereogenic_entry g n.
+Proof. exact registry_lookup. Qed.
+Print Assumptions C20_registry_lookup.
+
+(* ALL tetrahedral labels of a molecule with the registries COMPUTED from the two graphs.  [graph_wf]: for every labelled
+   stereogenic centre, the rebuilt molecule g' has the renamed centre and neighbours with the same element / charge / radical
+   flag and the same bond orders (adjacency in ANY order), the neighbours are pairwise different and stay so under the renaming,
+   and RDKit lists exactly the neighbours of the centre (in ANY order).  No assumption on registries or arrangements is left:
+   they are derived (C20_registry_equivariant, C20_arrangement_of_permutation). *)
+Theorem C20_bridge_stereo_molecule_tetrahedra_graph : forall g g' rho nums nb atoms k,
+  graph_wf g g' rho nums nb k atoms ->
+  exists tags, to_tags (is_hydrogen g) (stereogenic_tetrahedrons_of g) nums nb k atoms = Ok tags /\
+    exists labels', from_tags (is_hydrogen g') (stereogenic_tetrahedrons_of g') nb k (map tag_name tags) = Ok labels' /\
+      Forall2 (label_image (is_hydrogen g') (stereogenic_tetrahedrons_of g) (stereogenic_tetrahedrons_of g') rho) atoms labels'.
+Proof. exact tetrahedra_from_to_graph. Qed.
+Print Assumptions C20_bridge_stereo_molecule_tetrahedra_graph.
+
+(* non-vacuity: N(3)-C(7)(-C(9))(-C(4))-H(5), label on C(7); rebuilt with numbers 1..5 and another adjacency order; RDKit lists the
+   neighbours of the centre as indices 3, 0, 4, 2 *)
+Theorem C20_bridge_stereo_molecule_graph_example :
+  let atm := fun z s => mkAtom z None 0 false (Some 0) s in
+  let sb := mkBond 1 None in
+  let g := mkMol [(3, atm 7 None); (7, atm 6 (Some true)); (9, atm 6 None); (4, atm 6 None); (5, atm 1 None)]
+                 [(3, [(7, sb)]); (7, [(3, sb); (9, sb); (4, sb); (5, sb)]); (9, [(7, sb)]); (4, [(7, sb)]); (5, [(7, sb)])] in
+  let g' := mkMol [(1, atm 7 None); (2, atm 6 None); (3, atm 6 None); (4, atm 6 None); (5, atm 1 None)]
+                  [(1, [(2, sb)]); (2, [(5, sb); (4, sb); (1, sb); (3, sb)]); (3, [(2, sb)]); (4, [(2, sb)]); (5, [(2, sb)])] in
+  let nums := [3; 7; 9; 4; 5] in
+  let nb := fun k => if k =? 1 then [3; 0; 4; 2] else [1] in
+  graph_wf g g' (rho_of nums) nums nb 0 [(3, None); (7, Some true); (9, None); (4, None); (5, None)].
+Proof. exact graph_example. Qed.
+Print Assumptions C20_bridge_stereo_molecule_graph_example.
